@@ -256,11 +256,57 @@ def check_chan(prog: Program, res: Result) -> None:
     res.floor(R, 16)
 
 
+def check_width(prog: Program, res: Result) -> None:
+    """Input width of the head convolutions.  Encoder/decoder widths are DEFINED as int(filters * rate**k) (a product);
+    Model.__init__ recovers the decoder's last width by the inverse quotient max_channels / rate**n, which in floating
+    point lands just below the integer for non-integral rates (1.5**n): it has to be rounded, never truncated, or the
+    1x1 head convolution expects one channel fewer than the decoder delivers (the forward pass raises)."""
+    R = "C14-width"
+    fi = prog.cls("sleap_nn.architectures.model:Model").methods["__init__"]
+    res.touch(fi)
+    ints = [c for c in walk_function(fi.node) if isinstance(c, ast.Call) and isinstance(c.func, ast.Name) and c.func.id == "int" and len(c.args) == 1]
+    n_quot = 0
+    for c in walk_function(fi.node):
+        if isinstance(c, ast.BinOp) and isinstance(c.op, (ast.Div, ast.FloorDiv)) and any(isinstance(x, ast.BinOp) and isinstance(x.op, ast.Pow) for x in ast.walk(c.right)):
+            n_quot += 1
+            # the nearest enclosing conversion
+            conv = None
+            for a in ancestors(c):
+                if isinstance(a, ast.Call) and isinstance(a.func, ast.Name) and a.func.id in ("int", "round"):
+                    conv = a.func.id
+                    break
+                if isinstance(a, ast.Call) and norm(a.func) in ("math.floor", "math.ceil", "np.floor", "np.ceil", "math.trunc"):
+                    conv = norm(a.func)
+                    break
+                if isinstance(a, ast.stmt):
+                    break
+            if conv is None:
+                # quotient bound to a name: how is the name converted?
+                st = astq_stmt(c)
+                names = astq.target_names(st.targets[0]) if isinstance(st, ast.Assign) else set()
+                uses = [i for i in ints if isinstance(i.args[0], ast.Name) and i.args[0].id in names]
+                rounds = [r for r in walk_function(fi.node) if isinstance(r, ast.Call) and isinstance(r.func, ast.Name) and r.func.id == "round" and r.args
+                          and isinstance(r.args[0], ast.Name) and r.args[0].id in names]
+                conv = "round" if rounds and not uses else ("int" if uses else None)
+            ok = conv == "round" and not isinstance(c.op, ast.FloorDiv)
+            res.ob(R, ok, fi.qualname, f"inverse width quotient is rounded: {short(c, 50)}",
+                   f"`{short(c, 60)}` is converted with {conv or 'no rounding'}: for a non-integral filters_rate the quotient is a hair below the decoder's "
+                   "integer width and truncation makes the head convolution one channel too narrow", f"{fi.module.relpath}:{c.lineno}")
+    res.ob(R, n_quot >= 1, fi.qualname, "head input width is derived from the backbone width", "no inverse width computation found in Model.__init__", fi.where)
+    mk = [c for c in astq.method_calls(fi.node, "make_head")]
+    for c in mk:
+        v = astq.call_arg(c, 0, "x_in")
+        res.ob(R, v is not None and "in_channels" in astq.names_in(v), fi.qualname, "make_head receives the derived width",
+               f"`{short(c, 50)}` does not receive the derived input width", f"{fi.module.relpath}:{c.lineno}")
+    res.floor(R, 3)
+
+
 def check(prog: Program, res: Result) -> None:
     check_state(prog, res)
     check_pair(prog, res)
     check_sel(prog, res)
     check_chan(prog, res)
+    check_width(prog, res)
     res.assumptions.append("spatial shape arithmetic over the configuration grid (Conv2d/Upsample/PatchMerging size rules) is not decided")
 
 
@@ -281,5 +327,9 @@ VARIANTS = [
     Variant("chan-edges", "sleap_nn/architectures/heads.py", "        return int(len(self.edges) * 2)", "        return int(len(self.edges))", "C14-chan"),
     Variant("chan-3x3", "sleap_nn/architectures/heads.py", "                out_channels=self.channels,\n                kernel_size=1,\n                stride=1,\n                padding=\"same\",\n            ),\n            get_act_fn(self.activation),\n        )\n\n\nclass SingleInstanceConfmapsHead",
             "                out_channels=self.channels,\n                kernel_size=1,\n                stride=2,\n                padding=0,\n            ),\n            get_act_fn(self.activation),\n        )\n\n\nclass SingleInstanceConfmapsHead", "C14-chan"),
+    Variant("width-truncated", M, "            in_channels = int(\n                round(\n                    self.backbone.max_channels\n                    / (\n                        self.backbone_config.filters_rate\n                        ** len(self.backbone.dec.decoder_stack)\n                    )\n                )\n            )",
+            "            in_channels = int(\n                    self.backbone.max_channels\n                    / (\n                        self.backbone_config.filters_rate\n                        ** len(self.backbone.dec.decoder_stack)\n                    )\n            )", "C14-width"),
+    Variant("bp-width-round-only", M, "            in_channels = int(\n                round(\n                    self.backbone.max_channels\n                    / (\n                        self.backbone_config.filters_rate\n                        ** len(self.backbone.dec.decoder_stack)\n                    )\n                )\n            )",
+            "            in_channels = round(\n                    self.backbone.max_channels\n                    / (\n                        self.backbone_config.filters_rate\n                        ** len(self.backbone.dec.decoder_stack)\n                    )\n            )", None),
     Variant("bp-scratch-attr", "sleap_nn/inference/single_instance.py", "        cms = self.torch_model(inputs[\"image\"])\n", "        cms = self.torch_model(inputs[\"image\"])\n        self.last_shape = cms.shape\n", None),
 ]
